@@ -196,7 +196,7 @@ def r_index_space(cx):
     for (field, idx) in reads:
         if field != "mult":
             continue
-        from_valued = bool([1 for c in _calls(idx) if c[1].endswith("Iterator::position")])
+        from_valued = bool([1 for c in _calls(idx) if c[1].endswith("::position")])
         key = "from.%s[%s]" % (field, "position" if from_valued else _index_class(f, idx, None))
         if key in seen:
             continue
